@@ -40,7 +40,8 @@ def rust_cmd(case):
     subs = []
     for s in case["sigmas"]:
         subs.append({"map": pe.sigma_json(s), "request": cedar.request_json(pc.concrete_request(s)),
-                     "entities": cedar.entities_json(pc.concrete_entities(s))})
+                     "entities": cedar.entities_json(pc.concrete_entities(s)),
+                     "entity_unknowns": [cedar.uid_json(e["uid"]) for e in getattr(pc, "missing", [])]})
     return {"cmd": "partial_authorize",
             "policies": [{"id": p["id"], "text": cedar.policy_text(p)} for p in case["policies"]],
             "request": pc.preq_json(), "entities": pc.pents_json(), "partial_store": pc.partial_store, "subs": subs}
@@ -65,15 +66,15 @@ def in_model_fragment(case):
         if pe.has_ext(v):
             return False
     for s in case["sigmas"]:
-        for v in s.values():
-            if pe.has_ext(v):
+        for n, v in s.items():
+            if not n.startswith("\0") and pe.has_ext(v):
                 return False
     return True
 
 
 def describe(case):
     return {"rust_cmd": rust_cmd(case), "stream": case["stream"],
-            "sigmas": [{n: repr(v) for n, v in s.items()} for s in case["sigmas"][:3]]}
+            "sigmas": [{n.replace("\0", "~"): repr(v) for n, v in s.items()} for s in case["sigmas"][:3]]}
 
 
 # ------------------------------------------------------------------ the oracle on the implementation
@@ -261,7 +262,8 @@ def random_cases(rng, n, noext, partial_store=False):
             p = {"id": "p%d" % i, "effect": rng.choice(["permit", "permit", "forbid"]), "conds": conds, "annotations": []}
             p.update(scope_choices(rng, w))
             pols.append(p)
-        cases.append({"pc": pc, "policies": pols, "sigmas": pc.sigmas(NSIG), "stream": "random" if noext else "random-ext"})
+        cases.append({"pc": pc, "policies": pols, "sigmas": pc.sigmas(NSIG),
+                      "stream": "partial-store" if partial_store else ("random" if noext else "random-ext")})
     return cases
 
 
@@ -316,6 +318,7 @@ def run(rep, tier, seed):
     cases = table_cases(rng, tier)
     cases += random_cases(rng, 500 if quick else 12000, noext=True)
     cases += random_cases(rng, 150 if quick else 3000, noext=False)
+    cases += random_cases(rng, 250 if quick else 5000, noext=True, partial_store=True)
     nm = near_miss_cases(rng, 60 if quick else 600)
 
     rres = fw.run_rust(harness, [rust_cmd(c) for c in cases])
